@@ -74,3 +74,46 @@ impl TransactionWitnessSet {
     #[verifier::external_body] pub fn new() -> (r: Self)
         ensures r.vkeys is None, r.native_scripts is None, r.bootstraps is None, r.plutus_scripts is None, r.plutus_data is None, r.redeemers is None { unimplemented!() }
 }
+// ---- placeholder witnesses of the mock transaction -------------------------------------------------------------------------------
+opaque_types!(Ed25519Signature, PublicKey, Vkey, Vkeywitness, BootstrapWitness, ByronAddress);
+clone_eq!(Vkeywitness);
+/// number of distinct keys that must sign (count_needed_vkeys: unit signers)
+pub uninterp spec fn needed_vkeys(b: TransactionBuilder) -> usize;
+#[verifier::external_body] pub fn count_needed_vkeys(tx_builder: &TransactionBuilder) -> (r: usize) ensures r == needed_vkeys(*tx_builder) { unimplemented!() }
+/// Byron addresses owning inputs, as raw bytes (get_bootstraps: the inputs builder's set)
+#[verifier::external_body] pub fn get_bootstraps(inputs: &TxInputsBuilder) -> (r: BTreeSet<Vec<u8>>) ensures r@ == inputs.byron_owners(), r@.finite() { unimplemented!() }
+#[verifier::external_body] pub fn fake_raw_key_sig() -> Ed25519Signature { unimplemented!() }
+#[verifier::external_body] pub fn fake_raw_key_public(x: u64) -> PublicKey { unimplemented!() }
+#[verifier::external_body] pub fn fake_bootstrap_witness(index: u64, addr: &ByronAddress) -> BootstrapWitness { unimplemented!() }
+impl Vkey { #[verifier::external_body] pub fn new(pk: &PublicKey) -> Vkey { unimplemented!() } }
+impl Vkeywitness { #[verifier::external_body] pub fn new(vkey: &Vkey, signature: &Ed25519Signature) -> Vkeywitness { unimplemented!() } }
+impl ByronAddress { #[verifier::external_body] pub fn from_bytes(bytes: Vec<u8>) -> Result<ByronAddress, JsError> { unimplemented!() } }
+impl Vkeywitnesses {
+    /// number of add() calls (the fake keys are pairwise distinct: fakes.rs, not under contract)
+    pub uninterp spec fn count(&self) -> nat;
+    #[verifier::external_body] pub fn new() -> (r: Vkeywitnesses) ensures r.count() == 0 { unimplemented!() }
+    #[verifier::external_body] pub fn add(&mut self, w: &Vkeywitness) -> (r: bool) ensures final(self).count() == old(self).count() + 1 { unimplemented!() }
+}
+impl BootstrapWitnesses {
+    pub uninterp spec fn count(&self) -> nat;
+    #[verifier::external_body] pub fn new() -> (r: BootstrapWitnesses) ensures r.count() == 0 { unimplemented!() }
+    #[verifier::external_body] pub fn add(&mut self, w: &BootstrapWitness) -> (r: bool) ensures final(self).count() == old(self).count() + 1 { unimplemented!() }
+}
+impl PlutusList {
+    #[verifier::external_body] pub fn extend(&mut self, other: &PlutusList) ensures final(self).items() == old(self).items() + other.items() { unimplemented!() }
+}
+pub trait NoneOrEmpty {
+    spec fn empty(&self) -> bool;
+    fn is_none_or_empty(&self) -> (r: bool) ensures r == self.empty();
+}
+pub trait EmptyToNone: Sized {
+    fn empty_to_none(self) -> (r: Option<Self>) where Self: NoneOrEmpty ensures r == (if self.empty() { None::<Self> } else { Some(self) });
+}
+macro_rules! coll_empty { ($($n:ident),*) => { verus!{ $(
+    impl NoneOrEmpty for $n {
+        open spec fn empty(&self) -> bool { self.items().len() == 0 }
+        #[verifier::external_body] fn is_none_or_empty(&self) -> (r: bool) { unimplemented!() }
+    }
+)* } } }
+coll_empty!(NativeScripts, PlutusScripts, PlutusList);
+impl TxInputsBuilder { pub uninterp spec fn byron_owners(&self) -> Set<Vec<u8>>; }
